@@ -297,9 +297,9 @@ theorem fromDocument_eq (kvs : List (String × Json)) (hok : ∀ kv ∈ kvs, Mem
       some ((sortByName kvs).filterMap specialPatch ++
         (if ((sortByName kvs).filter fun kv => !isSpecial kv.1).isEmpty then []
          else [mkPatch "ietf-json-patch" "patches" (.arr (((sortByName kvs).filter fun kv => !isSpecial kv.1).map addOp))])) := by
-  have hid : stringEntry (Json.lookup "id" kvs) = "" := by rw [lookup_none_of_not_mem "id" kvs hnoid]; rfl
+  have hid : (Json.lookup "id" kvs).isSome = false := by rw [lookup_none_of_not_mem "id" kvs hnoid]; rfl
   have hS : ∀ kv ∈ sortByName kvs, MemberOK kv := fun kv h => hok kv ((sortByName_perm kvs).mem_iff.mp h)
-  simp only [fromDocument, hid, ne_eq, not_true_eq_false, if_false]
+  simp only [fromDocument, hid, Bool.false_eq_true, if_false]
   rw [foldlM_pointwise _ specialPatch (sortByName kvs) [] (by
     intro acc kv hkv
     obtain ⟨k, v⟩ := kv
